@@ -367,12 +367,13 @@ func (r *reporter) checkOpts(i int) {
 	c.Nontrivial("opts:" + strconv.Itoa(i))
 
 	// (1) the bare options codec
+	rb := &recvBuf{}
 	var got query.ProcessorOptions
 	var err error
 	if p := vf.Catch(func() {
 		var buf []byte
 		if buf, err = opt.MarshalBinary(); err == nil {
-			err = got.UnmarshalBinary(buf)
+			err = rb.deliver(buf, func(payload []byte) error { return got.UnmarshalBinary(payload) })
 		}
 	}); p != nil {
 		r.violation("opts-codec:panic", fmt.Sprintf("ProcessorOptions codec panicked: %v", p), oc)
@@ -381,6 +382,9 @@ func (r *reporter) checkOpts(i int) {
 	c.Count("roundtrips:opts-codec", 1)
 	if err != nil {
 		r.optsError("opts-codec", opt, err, oc)
+		return
+	}
+	if r.aliases("opts-codec", rb, func() any { return optsAliasView(&got) }, nil, oc) {
 		return
 	}
 	if r.compareOptions("ProcessorOptions", opt, &got, oc) {
@@ -420,8 +424,14 @@ func (r *reporter) checkOpts(i int) {
 			return
 		}
 		in := rpc.NewMessageWithHandler(executor.NewRPCMessage)
-		if err = in.Unmarshal(buf); err == nil {
+		if err = rb.deliver(buf, in.Unmarshal); err == nil { // Reactor: WarpRequester decodes, then FreeData
 			back, _ = in.Data().(*executor.RemoteQuery)
+		}
+		// the next request on the connection lands in the same pooled buffer
+		other := &executor.RemoteQuery{Database: strings.Repeat("Z", 40), ShardIDs: []uint64{1, 2, 3}, Node: []byte(strings.Repeat("N", 200)),
+			Opt: query.ProcessorOptions{Name: "other", Query: strings.Repeat("Q", len(buf))}}
+		if ob, oerr := rpc.NewMessage(executor.QueryMessage, other).Marshal(nil); oerr == nil {
+			_ = rb.deliver(ob, rpc.NewMessageWithHandler(executor.NewRPCMessage).Unmarshal)
 		}
 	}); p != nil {
 		r.violation("remotequery-codec:panic", fmt.Sprintf("RemoteQuery codec panicked: %v", p), oc)
@@ -432,7 +442,6 @@ func (r *reporter) checkOpts(i int) {
 		r.optsError("remotequery-codec", opt, err, oc)
 		return
 	}
-	ok := true
 	hdr := func(q *executor.RemoteQuery) map[string]any {
 		shards := make([][]uint64, 0, len(q.MstInfos))
 		for _, m := range q.MstInfos {
@@ -441,6 +450,16 @@ func (r *reporter) checkOpts(i int) {
 		return map[string]any{"Database": q.Database, "PtID": q.PtID, "NodeID": q.NodeID, "ShardIDs": q.ShardIDs,
 			"PtQuerys": q.PtQuerys, "Analyze": q.Analyze, "Node": q.Node, "MstShards": shards}
 	}
+	if r.aliases("remotequery-codec", rb, func() any {
+		v := []any{hdr(back), optsAliasView(&back.Opt)}
+		for _, m := range back.MstInfos {
+			v = append(v, optsAliasView(&m.Opt))
+		}
+		return v
+	}, nil, oc) {
+		return
+	}
+	ok := true
 	if ca, cb := canon(hdr(rq), canonOpts{}), canon(hdr(back), canonOpts{}); ca != cb {
 		ok = false
 		xa, xb, _, _ := firstDiff(ca, cb)
@@ -621,6 +640,8 @@ func (r *reporter) checkPlan(i int) {
 	r.noteFeatures("yacc", g.feat)
 
 	// (1) QuerySchema message: Encode -> proto bytes -> ParseFields (first step of DecodeQuerySchema)
+	rb := &recvBuf{}
+	var backSchema internal.QuerySchema
 	var gotFields influxql.Fields
 	var gotNames []string
 	var err error
@@ -630,12 +651,22 @@ func (r *reporter) checkPlan(i int) {
 		if buf, err = proto.Marshal(pb); err != nil {
 			return
 		}
-		var back internal.QuerySchema
-		if err = proto.Unmarshal(buf, &back); err != nil {
+		if err = rb.deliver(buf, func(payload []byte) error { return proto.Unmarshal(payload, &backSchema) }); err != nil {
 			return
 		}
-		gotNames = back.ColumnNames
-		gotFields, err = hybridqp.ParseFields(back.QueryFields)
+	}); p != nil {
+		r.violation("schema-codec:panic", fmt.Sprintf("QuerySchema codec panicked: %v", p), oc)
+		return
+	}
+	if err == nil && r.aliases("schema-codec", rb, func() any { return []any{backSchema.ColumnNames, backSchema.QueryFields} }, nil, oc) {
+		return
+	}
+	if p := vf.Catch(func() {
+		if err != nil {
+			return
+		}
+		gotNames = backSchema.ColumnNames
+		gotFields, err = hybridqp.ParseFields(backSchema.QueryFields)
 	}); p != nil {
 		r.violation("schema-codec:panic", fmt.Sprintf("QuerySchema codec panicked: %v", p), oc)
 		return
@@ -696,7 +727,18 @@ func (r *reporter) checkPlan(i int) {
 		eo := hybridqp.ExprOptions{Expr: f.Expr, Ref: ref}
 		var back hybridqp.ExprOptions
 		var eerr error
-		if p := vf.Catch(func() { eerr = back.Unmarshal(eo.Marshal()) }); p != nil {
+		if p := vf.Catch(func() {
+			var wire []byte
+			if wire, eerr = proto.Marshal(eo.Marshal()); eerr != nil {
+				return
+			}
+			var pb internal.ExprOptions
+			if eerr = rb.deliver(wire, func(payload []byte) error { return proto.Unmarshal(payload, &pb) }); eerr != nil {
+				return
+			}
+			rb.overwrite()
+			eerr = back.Unmarshal(&pb)
+		}); p != nil {
 			r.violation("expropts-codec:panic", fmt.Sprintf("ExprOptions codec panicked: %v", p), oc)
 			continue
 		}
@@ -752,7 +794,13 @@ func (r *reporter) checkPlan(i int) {
 			return
 		}
 		var back hybridqp.QueryNode
-		if back, err = executor.UnmarshalBinary(buf, schema); err == nil {
+		err = rb.deliver(buf, func(payload []byte) error {
+			var derr error
+			back, derr = executor.UnmarshalBinary(payload, schema)
+			return derr
+		})
+		rb.overwrite()
+		if err == nil {
 			planB = planShape(back)
 		}
 	}); p != nil {
@@ -934,7 +982,9 @@ func (r *reporter) checkChunk(i int) {
 		c.Sample(map[string]any{"part": "chunk", "shape": shape, "rows": ck.NumberOfRows()})
 	}
 	c.Nontrivial("chunk:" + strconv.Itoa(i))
-	var back executor.Chunk
+	rb := &recvBuf{}
+	var back, back2, ck2 executor.Chunk
+	var rt2 hybridqp.RowDataType
 	var err error
 	if p := vf.Catch(func() {
 		var buf []byte
@@ -944,20 +994,45 @@ func (r *reporter) checkChunk(i int) {
 			return
 		}
 		in := rpc.NewMessageWithHandler(executor.NewRPCMessage)
-		if err = in.Unmarshal(buf); err != nil {
+		if err = rb.deliver(buf, in.Unmarshal); err != nil { // BaseResponser.Apply: Decode, then FreeData
 			return
 		}
 		back, _ = in.Data().(executor.Chunk)
 		if back != nil {
 			back.SetRowDataType(rt) // RPCReaderTransform.chunkResponse
 		}
+		// the next response frame of the stream (another chunk) is read into the same pooled buffer
+		ck2, rt2, _ = buildChunk(caseRand(c, partChunk, i+1<<30))
+		msg2 := executor.NewChunkResponse(ck2)
+		var buf2 []byte
+		if buf2, err = msg2.Marshal(make([]byte, 0, msg2.Size())); err != nil {
+			return
+		}
+		in2 := rpc.NewMessageWithHandler(executor.NewRPCMessage)
+		if err = rb.deliver(buf2, in2.Unmarshal); err != nil {
+			return
+		}
+		if back2, _ = in2.Data().(executor.Chunk); back2 != nil {
+			back2.SetRowDataType(rt2)
+		}
 	}); p != nil {
 		r.violation("chunk-codec:panic", fmt.Sprintf("chunk codec panicked (%s): %v", shape, p), oc)
 		return
 	}
 	c.Count("roundtrips:chunk-codec", 1)
-	if err != nil || back == nil {
+	if err != nil || back == nil || back2 == nil {
 		r.violation("chunk-codec:error", fmt.Sprintf("chunk (%s): Marshal/Unmarshal failed: %v", shape, err), oc)
+		return
+	}
+	// both chunks are still held by the executor (merge / fill / join inputs) when the buffer is reused again
+	if r.aliases("chunk-codec", rb, func() any { return []any{chunkView(back), chunkView(back2)} }, func(before, after string) string {
+		return chunkAliasWhat(back, back2, before, after)
+	}, oc) {
+		return
+	}
+	if ca, cb := canon(chunkView(ck2), canonOpts{}), canon(chunkView(back2), canonOpts{}); ca != cb {
+		xa, xb, _, _ := firstDiff(ca, cb)
+		r.violation("chunk-codec:second-frame", fmt.Sprintf("the chunk decoded from the reused receive buffer differs from what was sent: ...%s... vs ...%s...", xa, xb), oc)
 		return
 	}
 	a, b := chunkView(ck), chunkView(back)
@@ -1001,7 +1076,19 @@ func (r *reporter) checkJoinCase(rr *rand.Rand, oc objCase) {
 	join := &influxql.Join{LSrc: l, RSrc: rs, Condition: st.Condition, JoinType: influxql.JoinType(rr.IntN(5))}
 	var back []*influxql.Join
 	var derr error
-	if p := vf.Catch(func() { back, derr = query.DecodeJoinCases(query.EncodeJoinCases([]*influxql.Join{join})) }); p != nil {
+	rb := &recvBuf{}
+	if p := vf.Catch(func() {
+		var wire []byte
+		if wire, derr = proto.Marshal(&internal.QueryNode{JoinCase: query.EncodeJoinCases([]*influxql.Join{join})}); derr != nil {
+			return
+		}
+		var pb internal.QueryNode
+		if derr = rb.deliver(wire, func(payload []byte) error { return proto.Unmarshal(payload, &pb) }); derr != nil {
+			return
+		}
+		rb.overwrite()
+		back, derr = query.DecodeJoinCases(pb.GetJoinCase())
+	}); p != nil {
 		r.violation("join-codec:panic", fmt.Sprintf("join case codec panicked: %v", p), oc)
 		return
 	}
@@ -1051,4 +1138,67 @@ func (r *reporter) checkJoinCase(rr *rand.Rand, oc objCase) {
 	}
 	xa, xb, _, _ := firstDiff(canon(join, canonOpts{selectSyntax: true}), canon(back[0], canonOpts{selectSyntax: true}))
 	r.violation("join-codec:differs", fmt.Sprintf("join case (%s) comes back different: ...%s... vs ...%s...", oc.Note, xa, xb), oc)
+}
+
+// aliases re-renders view() after the receive buffer has been reused and scribbled over;
+// a change means the decoded object still points into the buffer that spdy already gave
+// back to the connection pool. Returns true (and reports) in that case.
+func (r *reporter) aliases(codec string, rb *recvBuf, view func() any, what func(before, after string) string, oc any) bool {
+	var before, after string
+	if p := vf.Catch(func() {
+		before = canon(view(), canonOpts{})
+		rb.overwrite()
+		after = canon(view(), canonOpts{})
+	}); p != nil {
+		r.violation(aliasSig(codec, "panic"), fmt.Sprintf("%s: reading the decoded object after the receive buffer was reused panicked: %v", codec, p), oc)
+		return true
+	}
+	r.c.Count("receive-buffer-reuse-checks:"+codec, 1)
+	if before == after {
+		return false
+	}
+	xa, xb, ta, _ := firstDiff(before, after)
+	w := ta
+	if what != nil {
+		w = what(before, after)
+	}
+	r.violation(aliasSig(codec, w), fmt.Sprintf("%s: the decoded object equals the original right after Unmarshal but changes once spdy's pooled receive buffer is reused for the next frame (BaseResponser.Apply / Reactor free the buffer as soon as Unmarshal returns): ...%s... became ...%s...", codec, xa, xb), oc)
+	return true
+}
+
+func optsAliasView(o *query.ProcessorOptions) any {
+	// the trees themselves (canon sorts set literals; String() prints them in map order)
+	return []any{optsView(o), o.Condition, o.Expr, o.ValueCondition}
+}
+
+// chunkAliasWhat names which part of a decoded chunk changed when the buffer was reused:
+// Name / Tags / Time / ... or "Columns/<data type>" / "Dims/<data type>".
+func chunkAliasWhat(a, b executor.Chunk, before, after string) string {
+	// recompute per part on the (now scribbled) objects against the canonical text taken before
+	_, _, ta, _ := firstDiff(before, after)
+	i := 0
+	for i < len(before) && i < len(after) && before[i] == after[i] {
+		i++
+	}
+	pre := before[:i]
+	part := "?"
+	best := -1
+	for _, k := range []string{"\"Name\"=>", "\"Tags\"=>", "\"TagIndex\"=>", "\"Time\"=>", "\"IntervalIndex\"=>", "\"Columns\"=>", "\"Dims\"=>", "\"Rows\"=>"} {
+		if j := strings.LastIndex(pre, k); j > best {
+			best, part = j, strings.Trim(k, "\"=>")
+		}
+	}
+	if part == "Columns" || part == "Dims" {
+		if j := strings.LastIndex(pre, "\"DataType\"=>"); j >= 0 {
+			rest := pre[j+len("\"DataType\"=>"):]
+			if k := strings.IndexAny(rest, ",]"); k > 0 {
+				if n, err := strconv.Atoi(rest[:k]); err == nil {
+					return part + "/" + influxql.DataType(n).String()
+				}
+			}
+		}
+		// the DataType entry sorts before Strings/Floats...; fall back to the map key at the difference
+	}
+	_ = ta
+	return part
 }
